@@ -167,9 +167,24 @@ func TestC05Par(t *testing.T) {
 		c.Cfg.Extra = []int{8 + uni(rt, 33, "rep")}
 		// collection management by the mutating goroutine
 		nadm := uni(rt, 4, "nadmin")
+		replace := uni(rt, 4, "replacemode") == 0
+		if replace {
+			// collection replacement/removal beside readers: no Snapshot readers, no flusher
+			if len(c.Cfg.Workers) > 1 {
+				c.Cfg.Workers[1] = nil
+			}
+			for wi := 2; wi < len(c.Cfg.Workers); wi++ {
+				for j := range c.Cfg.Workers[wi] {
+					if c.Cfg.Workers[wi][j].K == OpSnap {
+						c.Cfg.Workers[wi][j] = Op{K: OpGet, C: j % 2, Key: KeyPool[j%8]}
+					}
+				}
+			}
+			nadm++
+		}
 		for i := 0; i < nadm && len(c.Cfg.Workers) > 0; i++ {
 			k := OpSetColl
-			if uni(rt, 3, "admkind") == 0 {
+			if replace {
 				k = OpRmColl
 			}
 			mut := c.Cfg.Workers[0]
